@@ -188,6 +188,7 @@ type c25Action struct {
 	parked     chan struct{} // closed when parked
 	release    chan struct{} // closed to let the caller continue
 	execCount  int32
+	finished   int32
 }
 
 func newC25Action(world *c25World, mon *c25Monitor, c int, name, typ string) *c25Action {
@@ -233,7 +234,12 @@ func (a *c25Action) actionType() WalletActionType {
 	return a.t
 }
 
+// finish tells execute() to return; only the first call counts. The channel
+// is buffered, so an action that never started simply keeps the token.
 func (a *c25Action) finish(out string) {
+	if !atomic.CompareAndSwapInt32(&a.finished, 0, 1) {
+		return
+	}
 	if out == "ok" {
 		a.end <- nil
 	} else {
@@ -405,22 +411,7 @@ func TestVerif_C25_Seq(t *testing.T) {
 		}
 		// clean up whatever is still running
 		for _, a := range acts {
-			select {
-			case <-a.begin:
-				select {
-				case <-a.left:
-				default:
-					select {
-					case a.end <- nil:
-					default:
-					}
-				}
-			default:
-				select {
-				case a.end <- nil: // buffered: consumed if it ever starts
-				default:
-				}
-			}
+			a.finish("ok")
 		}
 		if !c25WaitGoroutines(0, c25Long) {
 			t.Fatalf("dispatch goroutines did not exit during clean-up")
@@ -573,9 +564,7 @@ func TestVerif_C25_Hazard(t *testing.T) {
 		}
 		// end everything and check the map empties
 		for _, p := range procs {
-			if got[p] == "ok" {
-				acts[p].finish("ok")
-			}
+			acts[p].finish("ok")
 		}
 		if !c25WaitGoroutines(0, c25Long) {
 			t.Fatalf("dispatch goroutines did not exit")
@@ -783,8 +772,15 @@ func TestVerif_C25_Avail(t *testing.T) {
 		mon := newC25Monitor()
 		base := 0
 		var ob *c25Action
+		var all []*c25Action
+		endAll := func() {
+			for _, x := range all {
+				x.finish("ok")
+			}
+		}
 		if otherBusy {
 			ob = newC25Action(world, mon, 100, other, "Redemption")
+			all = append(all, ob)
 			if err := wd.dispatch(ob); err != nil {
 				rep.Diverge("avail:refused-free", "dispatch to a free wallet was refused", cas, "ok", c25Res(err))
 				continue
@@ -793,19 +789,25 @@ func TestVerif_C25_Avail(t *testing.T) {
 			base = 1
 		}
 		a := newC25Action(world, mon, 1, wn, "Heartbeat")
+		all = append(all, a)
 		if err := wd.dispatch(a); err != nil {
 			rep.Diverge("avail:blocked-by-other-wallet", fmt.Sprintf("dispatch to the free wallet %s was refused while wallet %s is executing", wn, other), cas, "ok", c25Res(err))
-			if ob != nil {
-				ob.finish("ok")
-			}
+			endAll()
 			c25WaitGoroutines(0, c25Long)
 			continue
 		}
 		c25AwaitBegin(t, a)
 		// while executing: refused
 		b := newC25Action(world, mon, 2, wn, "Redemption")
+		all = append(all, b)
 		if err := wd.dispatch(b); err != errWalletBusy {
 			rep.Diverge("avail:not-refused", "dispatch to a wallet whose action is executing was not refused with errWalletBusy", cas, "busy", c25Res(err))
+			rep.Eval("", cas)
+			endAll()
+			if !c25WaitGoroutines(0, c25Long) {
+				t.Fatalf("dispatch goroutines did not exit")
+			}
+			continue
 		}
 		if rnd.Intn(2) == 0 {
 			runtime.Gosched()
@@ -837,6 +839,7 @@ func TestVerif_C25_Avail(t *testing.T) {
 		case freed:
 			rep.Count("freed_after_us", int(time.Since(t0)/time.Microsecond))
 			c2 := newC25Action(world, mon, 3, wn, "DepositSweep")
+			all = append(all, c2)
 			if err := wd.dispatch(c2); err != nil {
 				rep.Diverge("avail:refused-after-end:"+out, fmt.Sprintf("the action of wallet %s ended (%s) and its entry is gone, yet the next dispatch was refused", wn, out), cas, "ok", c25Res(err))
 			} else {
@@ -858,6 +861,7 @@ func TestVerif_C25_Avail(t *testing.T) {
 			}
 			ob.finish("err")
 		}
+		endAll()
 		if !c25WaitGoroutines(0, c25Long) {
 			t.Fatalf("dispatch goroutines did not exit")
 		}
